@@ -308,15 +308,17 @@ class Rename:
     def args(draw, t):
         form = draw(st.sampled_from(["pair", "dict", "index", "nonstrict"]))
         hdr = t[0]
+        # (the new name may be falsy: '', 0 - a name like any other)
+        new1 = draw(st.sampled_from(["R", "R", "", 0]))
         if form == "pair":
-            return {"form": form, "spec": {draw(st.sampled_from(hdr)): "R"}}
+            return {"form": form, "spec": {draw(st.sampled_from(hdr)): new1}}
         if form == "index":
-            return {"form": form, "spec": {draw(st.integers(0, len(hdr) - 1)): "R"}}
+            return {"form": form, "spec": {draw(st.integers(0, len(hdr) - 1)): new1}}
         if form == "nonstrict":
             return {"form": form, "spec": {"nosuchfield": "R", draw(st.sampled_from(hdr)): "S"}}
         keys = draw(st.lists(st.one_of(st.sampled_from(hdr), st.integers(0, len(hdr) - 1)), min_size=1, max_size=3, unique=True))
         # new names may be existing field names: swaps and chains must be applied in ONE pass over the old header
-        newnames = st.one_of(st.sampled_from(list(hdr)), st.sampled_from(["R0", "R1"]))
+        newnames = st.one_of(st.sampled_from(list(hdr)), st.sampled_from(["R0", "R1", ""]))
         return {"form": form, "spec": dict((k, draw(newnames)) for k in keys)}
 
     @staticmethod
@@ -706,7 +708,8 @@ class Accessors:
     def args(cls, draw, t):
         return {"which": cls.which,
                 "field": fieldspec(draw, t[0], max_n=2, min_n=2) if len(t[0]) >= 2 else None, "missing": draw(st.sampled_from([None, "M", None, "M", 0, "", False])),
-                "slice": draw(st.sampled_from([None, [1, None], [0, 2]]))}
+                # islice-style arguments, incl. a stop of exactly 0 (nothing), a bare stop, a step
+                "slice": draw(st.sampled_from([None, [1, None], [0, 2], [0], [2], [3, 0], [1, 0, 2], [0, None, 2], [None, 2], [1, 3, 1]]))}
 
     @staticmethod
     def run(t, a):
